@@ -14,6 +14,7 @@ C  direct oracle (harness): on the AST after SortImports and on the re-parsed fo
    no panic; parsable input formats, formatted output parses.
 """
 import itertools
+import re
 
 import vlib
 
@@ -74,6 +75,18 @@ LINE_SET = [
     'import (\n\t"c" /*line gen.go:3*/\n\t"c" /*line gen.go:30*/\n\t"a"\n\t"a"\n)\nimport (\n\t"e"\n\t"d"\n)\n',
     'import "x" /*line gen.go:90*/\nimport (\n\t"c"\n\t"b"\n\t"a"\n)\n',
 ]
+# '#*' opens a BLOCK comment in the XGo scanner.  A trailing comment that ends on a later line is not re-attached by
+# sortSpecs (it ends after the run's last line) and stays where it was while its spec moves; if that leaves it behind a
+# general comment on the same line ("z" /**/ #* h ... */) the scanner's findLineEnd does not see the '#' comment, the
+# implicit semicolon is lost and the formatted output does not parse (see known_findings.d/C23.txt).  Deterministic set;
+# the seeded/mutating generator stays out of '#*'.
+HASHSTAR_SET = [
+    'import (\n\t"z" /**/\n\t"a" #* h\n\tx */\n\t"b"\n)\n',
+    'import (\n\t. "z" /**/\n\ty "a.b/c" #*/ h\n\tx `a` /* c */\n\t. "fmt" //go:x y\n)',
+    'import (\n\t"z"\n\t"a" #* h\n\tx */\n\t"b"\n)\n',          # holds: no general comment in front
+    'import (\n\t"z" /**/\n\t"a" /* h\n\tx */\n\t"b"\n)\n',    # holds: ordinary block comment
+    'import (\n\t"a" #* h */\n\t"b"\n)\n',
+]
 # two specs on one line: sortSpecs merges one line per removed duplicate, which can swallow the blank
 # line after the run and glue two groups together, or panic on the last line of the file (see
 # known_findings.d/C23.txt); deterministic set
@@ -102,6 +115,9 @@ FIXED_SET = [
     'import (\n\t_ "a"\n\t. "a"\n\tx "a"\n\t"a"\n)\n', 'import (\n\t"a"\n\t`a`\n)\n', 'import (\n\t"b"\r\n\t"a"\r\n)\r\n',
     'import (\n\t"a"\n\t"a"\n\t"a"\n\n\t"c"\n\t"b"\n)\necho 1\n',
 ]
+
+
+RPAREN_ON_SPEC_LINE = re.compile(rb'["`][^\n]*\)')
 
 
 def gen_spec(rng, small_paths):
@@ -265,6 +281,8 @@ def run(ctx):
         add(s, "hash-comment-set")
     for s in LINE_SET:
         add(s, "line-directive-set")
+    for s in HASHSTAR_SET:
+        add(s, "hashstar-set")
     for s in SAMELINE_SET:
         add(s, "sameline-set")
     for s in FIXED_SET:
@@ -276,6 +294,7 @@ def run(ctx):
                 body = "".join("\t" + sp + (seps[i] if i < n - 1 else "\n") for i, sp in enumerate(specs))
                 add("import (\n" + body + ")\n", "exhaustive")
     n_ex = len(cases)
+    n_excl = 0
     for i in range(ctx.n(7000, 300000)):
         k = i % 7
         if k < 4:
@@ -284,7 +303,12 @@ def run(ctx):
             add(gen_block(rng) + rng.choice(REST), "block")
         else:
             b = mutate(rng, gen_file(rng))
-            if b";" in b:       # two specs on one line: deterministic sameline-set only
+            # kept out of the mutating generator (dimensions with known findings, explored by the deterministic sets):
+            # two specs on one line, '#*' block comments, a ')' on the line of a spec (duplicate on the last line of
+            # the file); and a form feed (the printer drops the line break after a comment containing \f anywhere in a
+            # file: "x := 1 /*\f*/\ny := 2" formats to unparsable text — not an import matter, reported for C19)
+            if b";" in b or b"#*" in b or b"\x0c" in b or RPAREN_ON_SPEC_LINE.search(b):
+                n_excl += 1
                 continue
             add(b, "file-mutated")
 
@@ -347,6 +371,8 @@ def run(ctx):
             a, b = x.split("|"), y.split("|")
             if len(a) == len(b):
                 x = "|".join(p if q != "?" else "?" for p, q in zip(a, b))
+        if origin[cases[i]] == "hashstar-set" and f[5] == "REPARSEERR":
+            x = y = "(formatted output does not parse: known finding, judged by the direct oracle)"
         x, extra = refine(x, y)
         n_split += extra
         ig.append(x)
@@ -386,10 +412,10 @@ def run(ctx):
                    "single imports, empty blocks), named/dot/blank imports, raw-string paths, duplicates, trailing line/block/'#' comments "
                    "incl. empty ones, doc comment lines, blank-line runs, trailing code; byte-mutated files "
                    "(mostly unparsable: only 'fails without panic' is checked); //line and /*line*/ directives before, inside and trailing "
-                   "specs of the blocks (the model's line_at is the RAW line). NOT generated in the seeded part: two specs on one line (deterministic sameline-set of %d inputs; the line-table model "
+                   "specs of the blocks (the model's line_at is the RAW line). NOT generated in the seeded part (%d mutated candidates dropped): a form feed byte (printer defect independent of imports), a ')' on the line of a spec (sameline-set), '#*' block comments (deterministic hashstar-set of %d inputs) and two specs on one line (deterministic sameline-set of %d inputs; the line-table model "
                    "reproduces them, the direct oracle judges them). %d of the parsable inputs have key-equal specs differing in has-a-comment: compared on the "
                    "tie-insensitive projection (sequence of distinct (name,path)). non-trivial = distinct parsable file with >=2 specs in "
-                   "blocks whose spec order/positions SortImports changed" % (len(HASH_SET), len(LINE_SET), len(FIXED_SET), N, len(SMALL), n_ex, len(SAMELINE_SET), n_mixed),
+                   "blocks whose spec order/positions SortImports changed" % (len(HASH_SET), len(LINE_SET), len(FIXED_SET), N, len(SMALL), n_ex, n_excl, len(HASHSTAR_SET), len(SAMELINE_SET), n_mixed),
               origin_histogram=orig_h, status_histogram=status_h,
               shape_histogram=dict(sorted(shapes.items(), key=lambda kv: -kv[1])[:40]), model_compared=len(sel),
               output_splits_a_run_further=n_split, run_boundaries_changed_by_line_merges=n_dynamic,
